@@ -10,6 +10,9 @@
 (* Verdict (4a): exit # 0  <=>  some severity in the binary's own JSON     *)
 (*   report reaches the documented threshold of --fail-on (Doc side of     *)
 (*   Exit); an unusable --fail-on value must not yield a successful run.   *)
+(*   Folding: if requested problems are missing from the JSON report while *)
+(*   the same check reported on the same rule (they were merged away), the *)
+(*   exit status must still be the one all produced problems demand.       *)
 (* Binding: the JSON report lists exactly the requested problems           *)
 (*   (otherwise the case was not realised: UNBOUND, machinery failure);    *)
 (*   (4b) every recorded output equals Exit!ImplRun(case) (else DRIFT).    *)
@@ -29,13 +32,22 @@ TraceInit ==
   /\ l = 1 /\ done = FALSE
 
 SeqSet(s) == {s[k] : k \in 1..Len(s)}
-ExpectedJson(c) == [k \in 1..Len(c.reports) |-> [rule |-> k, sev |-> DocSevOfReq(c.reports[k])]]
-
 \* the case was realised: the binary reports exactly the requested problems with the requested severities
 Bound(c, r) ==
   IF DocFlagValid(c.failOn)
-  THEN r.written /\ Len(r.json) = Len(c.reports) /\ SeqSet(r.json) = SeqSet(ExpectedJson(c)) /\ ~r.panic
+  THEN r.written /\ Len(r.json) = Cardinality(DocProblemSet(c)) /\ SeqSet(r.json) = DocProblemSet(c) /\ ~r.panic
   ELSE ~r.panic
+
+\* Some requested problems are missing from the report although the same check reported on the same rule:
+\* they were folded away (Summary.Report / Dedup), not left undetected.
+Folded(c, r) ==
+  /\ DocFlagValid(c.failOn) /\ r.written /\ ~r.panic
+  /\ SeqSet(r.json) \subseteq DocProblemSet(c) /\ SeqSet(r.json) # DocProblemSet(c)
+  /\ \A e \in DocProblemSet(c) : \E x \in SeqSet(r.json) : x.rule = e.rule /\ x.reporter = e.reporter
+
+\* "duplicate folding never changes the exit status": when problems were folded away the exit status must still
+\* be the one the produced problems demand
+Prop_C05_Folding(c, r) == Folded(c, r) => ((r.exit # 0) <=> DocFails(c.failOn, DocSevNames(c)))
 
 \* C05 on the recorded real outputs
 Prop_C05(c, r) ==
@@ -50,11 +62,12 @@ Bind_Impl(c, r) ==
   /\ (c.cmd = "lint" /\ e.why = "found problems") =>
         LET failP == ParseSeverity(FlagValue(c.failOn, "bug")) IN
         /\ r.failSev = SevString(failP.sev)
-        /\ r.failCount = LintFailProblems(CountBySeverity(AllReports(c)), failP.sev)
+        /\ r.failCount = LintFailProblems(CountBySeverity(ReportAll(<<>>, AllReports(c), 1)), failP.sev)
 
 Sig(c, r) == [cmd |-> c.cmd, failOn |-> c.failOn, minSev |-> c.minSev, showDup |-> c.showDup,
               reports |-> [k \in 1..Len(c.reports) |-> c.reports[k].kind \o ":" \o c.reports[k].sev \o ":" \o ToString(c.reports[k].c)],
-              exit |-> r.exit, json |-> r.json, workers |-> r.workers]
+              exit |-> r.exit, json |-> r.json, workers |-> r.workers, produced |-> DocProblemSet(c),
+              folded |-> Folded(c, r)]
 
 TRun ==
   /\ l <= Len(TraceLog) /\ Rec.ev = "Run"
@@ -62,7 +75,7 @@ TRun ==
      /\ IF Bound(c, Rec) THEN TRUE
         ELSE PrintT(<<"UNBOUND", Rec.id, ToJson([case |-> c, written |-> Rec.written, json |-> Rec.json,
                                                    exit |-> Rec.exit, panic |-> Rec.panic, why |-> Rec.why])>>)
-     /\ IF Prop_C05(c, Rec) THEN TRUE
+     /\ IF Prop_C05(c, Rec) /\ Prop_C05_Folding(c, Rec) THEN TRUE
         ELSE PrintT(<<"VIOL", Rec.id, ToJson(Sig(c, Rec))>>)
      /\ IF Bind_Impl(c, Rec) THEN TRUE
         ELSE PrintT(<<"DRIFT", Rec.id, ToJson([case |-> c, expected |-> ImplRun(c),
